@@ -3,11 +3,11 @@
 import sys, os, shutil, json
 V = os.path.dirname(os.path.dirname(os.path.abspath(__file__)))
 i, change, needs, confirm, result = sys.argv[1:6]
-src = "/tmp/seed-%s/demo" % i; dst = os.path.join(V, "seeded", i); os.makedirs(dst, exist_ok=True)
+src = "/tmp/seed-%s/demo" % i; dst = os.path.join(V, "seeded", i + os.environ.get("SEED_SUFFIX", "")); os.makedirs(dst, exist_ok=True)
 for f in ("patch.diff", "demo.cc", "NOTES.md"): shutil.copy(os.path.join(src, f), os.path.join(dst, f))
 test = confirm.split("existing test ")[1].split(" ")[0] if "existing test " in confirm else ""
 json.dump({"property": i, "change": change, "needs_to_manifest": needs,
   "origin": "fresh sub-agent given only the property text and its own scratch worktree /tmp/seed-%s (no access to /verif)" % i,
   "confirmed_by_me": {"command": "tools/confirm_seed.sh %s %s" % (i, test), "result": confirm, "meaning": "demo fails with the change, passes without it; the named existing test still passes with the change"},
-  "check_run": {"command": "python3 tools/mutate.py run %s seeded/%s/patch.diff" % (i, i), "result": result}}, open(os.path.join(dst, "meta.json"), "w"), indent=1)
+  "check_run": {"command": "python3 tools/mutate.py run %s seeded/%s/patch.diff" % (i, i + os.environ.get("SEED_SUFFIX", "")), "result": result}}, open(os.path.join(dst, "meta.json"), "w"), indent=1)
 print("stored", dst)
